@@ -11,6 +11,7 @@ import time
 from concurrent.futures import ThreadPoolExecutor
 from .. import core
 from . import _c13_part
+from . import _c13_seq
 
 OPS = ["sum", "prod", "max", "min"]
 TYS = ["u", "i", "d"]
@@ -469,6 +470,8 @@ def run(ctx):
                                            "first_mismatch": mism[0] if mism else None, "coq_log": pr["log"][-1500:]}, no_input=True)
     # extension F: one partition pass under arbitrary interleavings of its threads (micro-step machine, Properties_C13_part.v)
     _c13_part.run_part(ctx, quick)
+    # extension W: the library's own sequential sort below the cutoff (drf_qsort_dbl/_algt; Properties_C13_seq.v)
+    _c13_seq.run_seq(ctx, quick)
 
 
 def replay(ctx, path):
@@ -479,6 +482,8 @@ def replay(ctx, path):
     cmd = case.get("harness_command") if isinstance(case, dict) else None
     if cmd and cmd.split()[0] in ("pass", "solo"):          # extension F (partition pass under a schedule)
         _c13_part.replay(ctx, j, case)
+    elif cmd and cmd.split()[0] == "seq":                    # extension W (sequential sort below the cutoff)
+        _c13_seq.replay(ctx, j, case)
     elif cmd:
         exe = ctx.link("c13_util", ["c13_util.c"], exclude=["patterns/allpairs.c"])
         ns, nw = case.get("config", [2, 2])
